@@ -9,7 +9,7 @@ RULE = ("random operation sequences (length <= 8 quick / <= 20 thorough) on real
         "wrong number of control points, weights with a sign change); non-mutating operations evaluation, + - * / @, ==, split, fraction, copy, "
         "Derivate, Integrate, Projection, Intersection, fit_curve of another curve to it; two curves built from one KnotVector object.  "
         "Non-trivial: a sequence with at least one raising call or a rational curve; distinct = distinct (start curve, op list)."
-        " Also: insertion of a node closer than 1e-9 to a different knot value into rational curves (refused: only atomicity is judged).")
+        " Also: insertion of a node closer than 1e-9 to a different knot value into rational curves (refused: only atomicity is judged); in-place arithmetic on the values returned by evaluation (they belong to the caller); Intersection.bcurve_and_bcurve in both operand orders; degree-0 / degree-1 curves with array control points.")
 EXPLANATION = ("L3 (runtime-observed): after every step len(ctrlpoints) = npts = len(knotvector)-degree-1 (= len(weights)), the curve evaluates on "
                "its whole interval, a raising call leaves (U,P,W) exactly as they were, non-mutating calls leave every operand unchanged, copies "
                "and siblings built from one KnotVector are independent.  L2: the state after every mutating step vs the Lean curve state machine.")
@@ -133,7 +133,9 @@ def nonmutating(rng, curve, other):
     else:
         ops += [("matmul", lambda: curve @ other),
                 ("projection", lambda: with_timeout(lambda: Projection.point_on_curve([float(x) for x in curve.ctrlpoints[0]], curve), 20)),
-                ("intersection", lambda: with_timeout(lambda: Intersection.curve_and_curve(curve, other), 30))]
+                ("intersection", lambda: with_timeout(lambda: Intersection.curve_and_curve(curve, other), 30)),
+                ("intersection-bezier", lambda: with_timeout(lambda: Intersection.bcurve_and_bcurve(curve, other), 30)),
+                ("intersection-bezier-swapped", lambda: with_timeout(lambda: Intersection.bcurve_and_bcurve(other, curve), 30))]
     return ops
 
 
@@ -204,6 +206,26 @@ def run_case(ctx, case):
                     impl(lambda: piece.knot_insert([(frac(piece.knotvector[0]) + frac(piece.knotvector[-1])) / 2]))
             if curve_state(curve) != s1:
                 rec.violation("modifying the result of %s changed the operand (aliasing)" % name, case, before=ser(s1), after=ser(curve_state(curve)))
+                return
+        # values returned by evaluation belong to the caller: in-place arithmetic on them must not reach the curve
+        for name, fn in (("eval(seq)", lambda: list(curve([frac(curve.knotvector[0]), (frac(curve.knotvector[0]) + frac(curve.knotvector[-1])) / 2]))),
+                         ("eval(u)", lambda: [curve((frac(curve.knotvector[0]) + 2 * frac(curve.knotvector[-1])) / 3)]),
+                         ("ctrlpoints", lambda: list(curve.ctrlpoints))):
+            r = impl(fn)
+            if r[0] != "ok":
+                continue
+            touched = 0
+            for v in r[1]:
+                if isinstance(v, np.ndarray) and name != "ctrlpoints":
+                    try:
+                        v += 1
+                        touched += 1
+                    except Exception:  # noqa: BLE001
+                        pass
+            rec.count("result-aliasing", name + ("-touched" if touched else ""))
+            if curve_state(curve) != s1:
+                rec.violation("in-place arithmetic on the value returned by %s changed the curve (the result aliases a control point)" % name,
+                              case, before=ser(s1), after=ser(curve_state(curve)))
                 return
         # copies are independent
         cp = copy(curve)
@@ -363,6 +385,17 @@ def run(ctx):
         if p >= 2 and rng.random() < 0.5:
             ops.append(("degdec", F(1), None))
         run_case(ctx, ser(dict(kind="seq", U=U, P=P, W=W, ops=ops, other=None, mutators_only=True)))
+    # piecewise-constant and piecewise-linear curves with array control points (single-span ones too): the non-mutating
+    # operations, Bezier intersection included, and the caller's in-place use of evaluation results
+    for i in range(budget(ctx, 8, 60)):
+        p = i % 2
+        U = rand_kv(rng, p=p, nintmax=(0 if i % 4 < 2 else 2), maxmult=1)
+        n = kv_info(U)[1]
+        W = rand_weights(rng, n, rng.choice(["none", "pos"]))
+        P = rand_points(rng, n, 2)
+        U2 = rand_kv(rng, p=rng.choice([0, 1]), nint=0, interval=(U[0], U[-1]))
+        other = dict(U=U2, P=rand_points(rng, kv_info(U2)[1], 2), W=None)
+        run_case(ctx, ser(dict(kind="seq", U=U, P=P, W=W, ops=[], other=other)))
     for i in range(budget(ctx, 30, 400)):
         U, P, W = rand_curve(rng, pmax=2, nintmax=2, dim=rng.choice([1, 1, 2]), force_zero=(i % 8 == 0))
         st = (tuple(U), tuple(P), None if W is None else tuple(W))
